@@ -11,7 +11,7 @@ package fox
 //@   ensures add: !(len(path) > 1 && path[len(path)-1] == '/') ==> len(result) == len(path)+1 && result[len(path)] == '/' && forall i int :: 0 <= i && i < len(path) ==> result[i] == path[i]
 //@   ensures remove: len(path) > 1 && path[len(path)-1] == '/' ==> result == path[:len(path)-1]
 
-//@ func level props C20
+//@ func level props C20 pure
 //@   ensures info: (200 <= status && status < 300) ==> result == 0
 //@   ensures debug: (300 <= status && status < 400) ==> result == -4
 //@   ensures warn: (400 <= status && status < 500) ==> result == 4
